@@ -96,6 +96,9 @@ func (c *cache) flushScheduler() {
 						for _, queued := range b {
 							c.flushObjs.Delete(queued)
 						}
+						// addr is marked above, but not queued yet if
+						// it has forced the previous batch out.
+						c.flushObjs.Delete(addr)
 						break addrLoop
 					case c.flushCh <- b:
 					case <-c.closeCh:
